@@ -13,10 +13,14 @@ def judge(ck, c, r, I, M, S, sup):
         return None
     if S == 1 and I != 0:
         return f'a conforming value was rejected ({CC.OUT_NAMES.get(I, I)})'
-    if 'twin' in c:
+    if 'twin' in c and c['twin'] < len(ck.env['impl']):
         t = ck.env['impl'][c['twin']]
+        c['twin_case'] = {k: v for k, v in ck.env['cases'][c['twin']].items() if k != 'twin_case'}     # lets a replay rebuild the pair
         if t is not None and 'out' in t and t['out'] != 9 and (t['out'] == 0) != (I == 0):
             if c['stream'] == 'reorder':
+                # equal keys (True / 1 / 1.0) collapse while the dict is built: then the twin is not a mere reordering
+                if 'val' not in t or CC.canon_val(t['val']) != CC.canon_val(r['val']):
+                    return None
                 return (f'the verdict depends on the iteration order of a nested dict / set: {CC.OUT_NAMES.get(t["out"])} for '
                         f'{ck.env["cases"][c["twin"]]["val"]} but {CC.OUT_NAMES.get(I)} for the reordered {c["val"]}')
             return (f'the verdict depends on the spelling: {CC.OUT_NAMES.get(t["out"])} for {ck.env["cases"][c["twin"]]["ann"]} '
